@@ -158,6 +158,27 @@ fn font_fields(f: &MonoFont) -> String {
             f.strikethrough.offset, f.strikethrough.height)
 }
 
+/// FNV-1a 64 (low 60 bits) over the atlas rows rebuilt from font.image.pixel(): MSB first, padding bits 0
+/// (the translator computes the same number from the fonts/raw file)
+pub fn bitmap_digest(f: &MonoFont) -> u64 {
+    let (w, h) = (f.image.size().width, f.image.size().height);
+    let mut hsh: u64 = 0xcbf29ce484222325;
+    for y in 0..h {
+        let mut x = 0;
+        while x < w {
+            let mut byte = 0u8;
+            for k in 0..8 {
+                if x + k < w && f.image.pixel(Point::new((x + k) as i32, y as i32)) == Some(BinaryColor::On) {
+                    byte |= 0x80 >> k;
+                }
+            }
+            hsh = (hsh ^ byte as u64).wrapping_mul(0x100000001b3);
+            x += 8;
+        }
+    }
+    hsh & ((1u64 << 60) - 1)
+}
+
 pub fn run(suite: &str, a: &[&str]) -> Option<String> {
     Some(match suite {
         "c14_ds" => {
@@ -192,7 +213,7 @@ pub fn run(suite: &str, a: &[&str]) -> Option<String> {
             let (probes, _) = parse_list(a, 1);
             match find_font(a[0]) {
                 None => "NO-SUCH-FONT".into(),
-                Some((f, _)) => format!("F {} I {}", font_fields(f),
+                Some((f, _)) => format!("F {} D {} I {}", font_fields(f), bitmap_digest(f),
                     probes.iter().map(|c| f.glyph_mapping.index(char::from_u32(*c as u32).unwrap()).to_string()).collect::<Vec<_>>().join(",")),
             }
         }
@@ -344,6 +365,13 @@ pub fn search(suite: &str, a: &[&str]) -> Option<String> {
             let n = text.chars().count() as i32;
             if rn != Point::new(x + n * font.character_size.width as i32, y) { return Some(format!("FAIL next position {:?}", rn)); }
             format!("OK {}", nat.map.len())
+        }
+        // p_c14_bitmap <font> <digest>: the glyph bitmap of the running library is the committed reference (Proofs/FontGolden.v)
+        "p_c14_bitmap" => {
+            let (font, _) = match find_font(a[0]) { Some(x) => x, None => return Some("FAIL no such font".into()) };
+            let d = bitmap_digest(font);
+            if d.to_string() != a[1] { return Some(format!("FAIL glyph bitmap of {} has digest {} but the committed reference is {}", a[0], d, a[1])); }
+            "OK 1".to_string()
         }
         // p_c14_codepage <MAPPING> <n: index codepoint index codepoint ...>: the glyph index of every character the
         // standard code page defines (reference = an independent codec table supplied by the generator)
